@@ -13,6 +13,7 @@ import (
 	"github.com/btcsuite/btcd/btcec/v2"
 	"github.com/btcsuite/btcd/btcec/v2/ecdsa"
 	"github.com/btcsuite/btcd/btcec/v2/schnorr"
+	"github.com/btcsuite/btcd/btcec/v2/schnorr/musig2"
 
 	"verif/harness/internal/tla"
 	"verif/harness/internal/tlc"
@@ -311,7 +312,8 @@ func runSigParse(ctx *vrun.Ctx) error {
 		census[k.c.F("parser").Str()+"/"+k.e.F("verdict").Str()]++
 	}
 	for _, need := range []string{"ecdsa.der/accept", "ecdsa.der/reject", "ecdsa.lax/may", "ecdsa.lows/accept", "schnorr.sig/accept",
-		"schnorr.sig/reject", "btcec.pub/accept", "btcec.pub/reject", "schnorr.pub/accept", "schnorr.pub/reject"} {
+		"schnorr.sig/reject", "btcec.pub/accept", "btcec.pub/reject", "schnorr.pub/accept", "schnorr.pub/reject",
+		"musig.pubnonce/accept", "musig.pubnonce/reject", "musig.aggnonce/accept", "musig.aggnonce/reject"} {
 		if census[need] == 0 {
 			return fmt.Errorf("sigparse: vacuity: no case %s", need)
 		}
@@ -337,6 +339,7 @@ func parseCase(ctx *vrun.Ctx, c, e tla.Value) {
 	label := fmt.Sprintf("%s|%s|%s|%s|%s|%d", parser, shape, c.F("rc").Str(), c.F("sc").Str(), c.F("xc").Str(), inst)
 	ctx.Distinct("parse|" + parser + "|" + shape + "|" + c.F("rc").Str() + "|" + c.F("sc").Str() + "|" + c.F("xc").Str())
 	key := func(kind string) string { return "parse:" + parser + ":" + keyShape(shape) + ":" + kind }
+	_ = key
 	replay := func(b []byte) map[string]any {
 		return map[string]any{"case": c.Go(), "expect": e.Go(), "bytes": hx(b)}
 	}
@@ -466,7 +469,54 @@ func parseCase(ctx *vrun.Ctx, c, e tla.Value) {
 		if err != nil || !bytes.Equal(back.SerializeCompressed(), evenWant.compressed()) {
 			ctx.Violation(key("roundtrip"), fmt.Sprintf("schnorr.ParsePubKey(SerializePubKey()) of the key parsed from %x is not its even-y point (%v)", b, err), replay(b))
 		}
+	case "musig.pubnonce", "musig.aggnonce":
+		h1, h2 := shape, c.F("xc").Str()
+		var nonce [musig2.PubNonceSize]byte
+		copy(nonce[:33], nonceHalf(ctx, h1, label+"|1"))
+		copy(nonce[33:], nonceHalf(ctx, h2, label+"|2"))
+		bad := h1
+		if h1 == "even" || h1 == "odd" {
+			bad = h2
+		}
+		key = func(kind string) string { return "parse:" + parser + ":" + bad + ":" + kind }
+		if parser == "musig.pubnonce" {
+			_, err := musig2.AggregateNonces([][musig2.PubNonceSize]byte{nonce})
+			judge(nonce[:], err == nil, err)
+			return
+		}
+		// one signer, its own (valid) secret nonce, the aggregate nonce under test;
+		// WithFastSign: the only possible failure is the aggregate nonce itself
+		d := keyValue(ctx, "rand", label+"|d")
+		P := baseMul(d)
+		sec := craftNonces(keyValue(ctx, "rand", label+"|k1"), keyValue(ctx, "rand", label+"|k2"), P.compressed())
+		var msg [32]byte
+		_, err := musig2.Sign(sec.SecNonce, privObj(d), nonce, []*btcec.PublicKey{pubObj(P)}, msg, musig2.WithFastSign())
+		judge(nonce[:], err == nil, err)
 	default:
 		panic("unknown parser " + parser)
 	}
+}
+
+// nonceHalf builds one 33-byte half of a MuSig2 nonce.
+func nonceHalf(ctx *vrun.Ctx, form, label string) []byte {
+	switch form {
+	case "even", "odd", "tag04":
+		x, _ := xValue(ctx, "onc", label)
+		pre := map[string]byte{"even": 2, "odd": 3, "tag04": 4}[form]
+		return append([]byte{pre}, b32(x)...)
+	case "zero33":
+		return make([]byte, 33)
+	case "zero_junk":
+		b := make([]byte, 33)
+		ctx.Rand("junk|" + label).Read(b[1:])
+		b[32] |= 1
+		return b
+	case "offc":
+		x, _ := xValue(ctx, "offc", label)
+		return append([]byte{2}, b32(x)...)
+	case "xgep":
+		x, _ := xValue(ctx, "pplus", label)
+		return append([]byte{2}, b32(x)...)
+	}
+	panic("unknown nonce half form " + form)
 }
